@@ -13,7 +13,7 @@ def register(prop, TB):
     tb = TB + TB_GEN
     gen = lambda name: [{"name": name, "bin": "genrun", "pygen": "requests_" + name}]
     prop("C02", lean_props=["C02", "C02b", "C01", "Templates"], bins=["rt", "gentool"], streams=gen("C02"), oracle_tags=["C02", "C04", "C11", "C12"], trusted_base=tb)
-    prop("C08", lean_props=["C08", "Templates"], bins=["rt", "gentool"], streams=gen("C08"), oracle_tags=["C08"], trusted_base=tb)
+    prop("C08", lean_props=["C08", "C08b", "Templates"], bins=["rt", "gentool"], streams=gen("C08"), oracle_tags=["C08"], trusted_base=tb)
     prop("C20", lean_props=["C20", "C20b", "C20c"], bins=["rt", "gentool"], streams=gen("C20"), oracle_tags=["C20", "C02"], trusted_base=tb)
     prop("C13", lean_props=["C13"], bins=["rt", "gentool"], streams=gen("C13"), oracle_tags=["C13", "C04", "C11"], trusted_base=tb + [
         "retained chunks are represented in the model by the field value they encode (Binary.readVal of the same bytes); the pointer/offset bookkeeping of the emitted code (__pilota_begin_ptr, __pilota_offset, get_bytes) is covered by T1 only",
